@@ -1153,40 +1153,32 @@ def randcap(nrand, ra, dec, rad, get_radius=False, dorot=False, rng=None):
         # generate position angle uniformly 0, 2*PI
         rand_posangle = rng.uniform(low=0, high=2 * PI, size=nrand)
 
-        theta = np.array(dec, dtype="f8", ndmin=1, copy=True)
-        phi = np.array(ra, dtype="f8", ndmin=1, copy=True)
-        theta += 90
+        # Offset each point from the cap center with vectors rather than
+        # spherical trigonometry: arccos of numbers near unity limited the
+        # positions to ~1e-8 radians, which put points outside of small
+        # caps and made the returned radii disagree with the positions.
+        decrad = np.deg2rad(np.array(dec, dtype="f8", ndmin=1, copy=True))
+        rarad = np.deg2rad(np.array(ra, dtype="f8", ndmin=1, copy=True))
 
-        np.deg2rad(theta, theta)
-        np.deg2rad(phi, phi)
-
-        sintheta = sin(theta)
-        costheta = cos(theta)
+        sindec = sin(decrad)
+        cosdec = cos(decrad)
+        sinra = sin(rarad)
+        cosra = cos(rarad)
 
         sinr = sin(rand_r)
         cosr = cos(rand_r)
 
-        cospsi = cos(rand_posangle)
-        costheta2 = costheta * cosr + sintheta * sinr * cospsi
+        # components along local north and east at the center.  As before,
+        # the position angle is measured from south through west
+        pnorth = -sinr * cos(rand_posangle)
+        peast = -sinr * sin(rand_posangle)
 
-        np.clip(costheta2, -1, 1, costheta2)
+        x = cosr * cosdec * cosra - pnorth * sindec * cosra - peast * sinra
+        y = cosr * cosdec * sinra - pnorth * sindec * sinra + peast * cosra
+        z = cosr * sindec + pnorth * cosdec
 
-        # gives [0,pi)
-        theta2 = arccos(costheta2)
-        sintheta2 = sin(theta2)
-
-        cosDphi = (cosr - costheta * costheta2) / (sintheta * sintheta2)
-
-        np.clip(cosDphi, -1, 1, cosDphi)
-        Dphi = arccos(cosDphi)
-
-        # note fancy usage of where
-        phi2 = np.where(rand_posangle > PI, phi + Dphi, phi - Dphi)
-
-        np.rad2deg(phi2, phi2)
-        np.rad2deg(theta2, theta2)
-        rand_ra = phi2
-        rand_dec = theta2 - 90.0
+        rand_ra = np.rad2deg(arctan2(y, x))
+        rand_dec = np.rad2deg(arctan2(z, sqrt(x * x + y * y)))
 
         atbound(rand_ra, 0.0, 360.0)
 
